@@ -187,13 +187,13 @@ LEVEL_TEXT = {
         "Tie: the full product of layouts (exhaustive in thorough) against an independent decision table.",
  "C20": "Theorems: a copy loop with any chunk sizes over a source whose reads are slices writes exactly that slice, hence, for every tree (build_wf), make-iso output = the canonical image of C09 (the bytes the server announces and serves); decrypt output = h zero bytes ++ reference plaintext from h on (C10); a blanked watermark area is never recognised as 3k3y again (served back unchanged); the output-file decision never selects 'create' for an existing path and '-' is stdout. "
         "Tie: the real binary's files and stdout against the model and the crypto/aes reference, pre/post state of existing targets, served-back comparison.",
- "C04": "Logic proved, runtime observed. Theorems on `Model/Checked.lean` (the Go index/slice arithmetic transcribed over Int with the runtime's bounds checks explicit): VirtualISO.read never faults for ANY image, member contents, offset >= 0 and buffer length (no well-formedness needed); clearRegionsData, every sector visited by decryptData for any read position/length/region, and clear3k3yData stay in bounds; the region-table allocation is at most 255 entries whatever count the file declares and index 0 is only touched on a non-empty table; directory-record and path-table size computations agree for every identifier the generator can make (no 'size mismatch' panic), the volume identifier and product id fit their fields, gameCode[:4] is guarded for every PARAM.SFO content; READ_CD offsets cannot overflow int64. "
+ "C04": "Logic proved, runtime observed. Theorems on `Model/Checked.lean` (the Go index/slice arithmetic transcribed over Int with the runtime's bounds checks explicit): VirtualISO.read never faults for ANY image, member contents, offset >= 0 and buffer length (no well-formedness needed); clearRegionsData, every sector visited by decryptData for any read position/length/region, and clear3k3yData stay in bounds; the region-table allocation is at most 255 entries whatever count the file declares and index 0 is only touched on a non-empty table; directory-record and path-table size computations agree for every identifier the generator can make (no 'size mismatch' panic), the volume identifier and product id fit their fields, gameCode[:4] is guarded for every PARAM.SFO content; the value and the keys the PARAM.SFO parser builds in memory are bounded (64 KiB, 512 bytes) whatever the file declares; READ_CD offsets cannot overflow int64. "
         "Tie: hostile worlds predicted by the model in-process; process survival, liveness, bystander integrity, tool exits, descriptor and memory limits observed on the real binary.",
  "C19": "Theorems over the Lean model of the configuration wiring (`effective`): a command-line flag wins over every file and variable; a value given in exactly one channel is the effective one; among files --config / PS3NETSRV_CONFIG_FILE > ./config.ini > user directory; a malformed value in the winning channel, or in the environment at all, stops start-up (never a silent fallback); one failing setting stops start-up. "
         "Tie: the real binary's observable behaviour for all 9 settings x 6 channels against the model.",
  "C12": "Logic proved, runtime observed. Theorems on the multi-connection model: with writing off, for any number of connections and ANY interleaving of their requests, each connection's response stream equals its stream when served alone (induction over the schedule; a step of one connection never touches another's state and leaves the world fixed), hence independence of what others send; the same on a server with writing ENABLED for every schedule of non-mutating requests (open/stat/list/read/dir-size), from the general frame theorem noninterference_of_frame; every connection starts from the empty state; the shared buffer pool never hands one buffer to two connections under any get/put interleaving. "
         "Tie: parallel sessions against the sequential prediction, race detector in thorough.",
- "C13": "Logic proved, runtime observed. Theorems: State.Close releases all three slots whatever they hold; every request keeps at most one handle per slot and a replaced handle is released (slot bookkeeping of OPEN_DIR/OPEN_FILE/CREATE/CLOSEFILE); the judgement predicate accepts the fault-free run, rejects altered bytes and hangs, and a closed connection admits nothing after it; enumeration always terminates (structural recursion over the remaining names). "
+ "C13": "Logic proved, runtime observed. Theorems: State.Close releases all three slots whatever they hold; every request keeps at most one handle per slot and a replaced handle is released (slot bookkeeping of OPEN_DIR/OPEN_FILE/CREATE/CLOSEFILE); the judgement predicate accepts the fault-free run, rejects altered bytes and hangs, and a closed connection admits nothing after it; enumeration always terminates (structural recursion over the remaining names); key lookup under faults: an I/O error on the key beside the image fails the open (never a fallback to the REDKEY key, never a keyless view), the key used is the first one truly present, and without faults the decision coincides with the modelled lookup (redumpKey_is_decision). "
         "Tie: single-fault enumeration over every filesystem operation of 9 scenarios (plain, generated image, encrypted with REDKEY key / adjacent key / both keys, 3k3y, CD image with sector-size probe, enumeration, upload) judged by that predicate; ledger after every session and after abrupt closes.",
  "C14": "Kernel-checked theorems over the Lean model of ParseIPRange/Contains: byte-wise comparison is numeric comparison, membership is exactly "
         "'between the bounds' for every 16-byte address; block_denotes: for every 4- or 16-byte address and every prefix length the computed bounds are exactly the documented block "
